@@ -382,6 +382,7 @@ template<typename T, typename A>
 template<typename SerDe>
 ebpps_sample<T, A> ebpps_sample<T, A>::deserialize(std::istream& is, const SerDe& sd, const A& allocator) {
   const double c = read<double>(is);
+  if (!is.good()) throw std::runtime_error("error reading from std::istream");
   if (!(c >= 0.0 && c <= std::numeric_limits<uint32_t>::max()))
     throw std::runtime_error("sketch image has C < 0.0 or not a valid count during deserializaiton");
 
